@@ -293,14 +293,18 @@ def synthetic_calls(run, ntables, per_con):
     for _ in range(ntables):
         lang = rng.choice(gen_types.LANGS)
         tb = gen_types.Table(rng, lang=lang, pbound=0.6, pvariance=0.5, maxparams=4, nclasses=rng.randint(3, 7))
-        if not tb.cons:
-            continue
         top = tb.any
-        types = list(tb.builtins) + list(tb.simple) + list(tb.cons)
+        # gen_types instantiates without looking at bounds: keep the constructors whose parameter bounds are
+        # themselves well-bounded types (the helpers' contract is about well-formed declarations)
+        good = [c for c in tb.cons if all(inst_lib.bounds_respected(p.bound, top) for p in c.type_parameters)]
+        run.tally("synthetic_constructors", "well-bounded" if len(good) == len(tb.cons) else "dropped-some")
+        if not good:
+            continue
+        types = list(tb.builtins) + list(tb.simple) + list(good)
         rec = inst_lib.Recorder(top, limit=10 ** 9, origin="synthetic:" + lang)
         rec.install()
         try:
-            for con in tb.cons:
+            for con in good:
                 ps = list(con.type_parameters)
                 for _k in range(per_con):
                     dis = rng.choice([(0, 0), (0, 0), (0, 1), (1, 0), (1, 1)])
@@ -341,7 +345,7 @@ def synthetic_calls(run, ntables, per_con):
                     # the outermost recorded call is the last one appended
                     for rq in rec.requests[n0:]:
                         rq["meta"]["entry"] = fn
-                    judge = inst_lib.py_judge(ps, sigma, targs, top)
+                    judge = inst_lib.py_judge(ps, sigma, targs, top, pre)
                     out.append({"requests": rec.requests[n0:], "judge": judge, "sigma_obj": sigma, "fn": fn,
                                 "text": inst_lib.describe(ps, pre, vc, sigma, targs)})
         finally:
